@@ -115,6 +115,16 @@ def replay_model(contract: dict, model: dict):
         import importlib
         mod, fn = contract['concrete_inputs'].split(':')
         inputs = getattr(importlib.import_module(mod), fn)({k: decode(v) for k, v in model.items()})
+        if isinstance(inputs, list):      # several candidate concretisations of one counter-model (e.g. block layouts): first real failure wins
+            from .concrete import view
+            last = None
+            for cand in inputs:
+                shown = {k: repr(view(v, ()))[:300] for k, v in cand.items()}
+                last = run_contract(contract, cand)
+                last['inputs'] = shown
+                if last.get('outcome') == 'fail':
+                    return last
+            return last or dict(outcome='spec-error', detail='no candidate inputs')
     else:
         inputs = {k: build(decode(v), dm) for k, v in model.items() if not k.startswith('__')}
     from .concrete import view
